@@ -80,12 +80,24 @@ func main(a [9000]uint8, b uint8) (uint8, uint8) {
 `, func(r *vrt.Rng) ([]string, []string) {
 		return []string{"0x" + fmt.Sprintf("%x", r.Bytes(9000))}, []string{fmt.Sprint(r.Intn(256))}
 	}},
+	// the evaluator's input wires (through one OT batch) straddle wire id 65536
+	{"evaluator-input-across-65536", `package main
+func main(a uint8, b [8200]uint8) (uint8, uint8, uint8) {
+	var s uint8
+	for i := 0; i < 24; i++ {
+		s = s + (b[8180+i%20] ^ a)
+	}
+	return s, b[8190] + b[8191] + b[8192], b[8199] ^ b[0] ^ a
+}
+`, func(r *vrt.Rng) ([]string, []string) {
+		return []string{fmt.Sprint(r.Intn(256))}, []string{"0x" + fmt.Sprintf("%x", r.Bytes(8200))}
+	}},
 }
 
 func init() {
 	vrt.Register(&vrt.Prop{
 		ID: "C05", Level: "exploration",
-		Rule: "case = a two-party program (generated with aliasing bias: constant shifts, casts, array element and struct field updates, arrays/structs as arguments; or a fixture with unsized main(a, b uint) / []byte signatures instantiated from the exchanged input sizes, or one keeping > 65535 wire ids live) run in streaming mode (Compiler.Stream against circuit.StreamEvaluator over a fragmenting tap; OT in {CO, COT}) on 1-3 boundary/random input pairs. " +
+		Rule: "case = a two-party program (generated with aliasing bias: constant shifts, casts, array element and struct field updates, arrays/structs as arguments; or a fixture with unsized main(a, b uint) / []byte signatures instantiated from the exchanged input sizes, one keeping > 65535 wire ids live, one whose evaluator input wires straddle wire id 65536) run in streaming mode (Compiler.Stream against circuit.StreamEvaluator over a fragmenting tap; OT in {CO, COT}) on 1-3 boundary/random input pairs. " +
 			"Oracle: no error, no stall, both parties' values identical and equal to the reference evaluation of the whole compiled circuit on the same inputs, output types and sizes identical to the circuit's. Distinct = hash(program, inputs).",
 		Assumptions: []string{"refc on the whole compiled circuit is the specification (C03 relates that circuit to the program)"},
 		NumCases: func(t string) int {
@@ -114,7 +126,7 @@ func runC05(cs *vrt.Case) {
 	var prog *mpclgen.Program
 	var vec []mpclgen.Val
 	npairs := 2
-	if k := cs.Idx % 10; k < len(c05Fixtures) && (k < 2 || cs.Idx%30 == 2 || cs.Thorough() && cs.Idx%90 == 2) {
+	if k := cs.Idx % 10; k < len(c05Fixtures) && (k < 2 || cs.Idx%30 == k) {
 		f := c05Fixtures[k]
 		src, what = f.src, "fixture "+f.name
 		gIn, eIn = f.in(r)
